@@ -27,6 +27,9 @@ enum Scenario {
     WithApi(clients::Api, Box<Scenario>),
     /// as ClientAbandon (next call issued afterwards), and after that call one more sender of another kind
     ClientAbandonThen { kind: Kind, k: usize, then: Then },
+    /// as ClientAbandon with a request of `pad` bytes of padding (megabytes: whatever a client does differently
+    /// for large requests -- chunked writes, fragmentation -- is then what gets interrupted)
+    ClientAbandonBig { kind: Kind, k: usize, pad: usize, queued: bool },
     /// many concurrent writers (calls, every fourth a notify) with pads cycling over the boundary classes
     ManyWriters { kind: Kind, n: usize, stall: Option<usize> },
     /// blocking Client over TCP with a write timeout and a peer that is not reading: notifies of `fill` pad bytes
@@ -138,6 +141,20 @@ fn scenarios(tier: Tier) -> Vec<Scenario> {
     for pause_ms in [540u64, 400] {
         v.push(Scenario::BlockingServerWriteTimeoutPaced { pause_ms });
     }
+    // megabyte requests abandoned mid-send (1 MiB + a bit, 3 MiB), the cut around the sizes a client might split at
+    for kind in [Kind::Async, Kind::Ws] {
+        for pad in [1_100_000usize, 3_000_000] {
+            for k in [0usize, 100, 65_536, 262_143, 262_144 + 20, 524_288 + 40, 1_048_576 - 1, 1_048_576 + 60, pad - 1] {
+                if tier == Tier::Quick && (pad > 2_000_000 || ![100usize, 262_143, 262_144 + 20, 1_048_576 + 60].contains(&k)) {
+                    continue;
+                }
+                v.push(Scenario::ClientAbandonBig { kind, k, pad, queued: false });
+                if k % 2 == 0 {
+                    v.push(Scenario::ClientAbandonBig { kind, k, pad, queued: true });
+                }
+            }
+        }
+    }
     v
 }
 
@@ -206,12 +223,12 @@ async fn client_writers(kind: Kind, pads: &[usize], stall: Option<usize>) -> (Ba
     (bad, flags | 2)
 }
 
-async fn client_abandon(kind: Kind, k: usize, queued: bool, then: Option<Then>) -> (Bad, u64) {
+async fn client_abandon(kind: Kind, k: usize, queued: bool, then: Option<Then>, pad: usize) -> (Bad, u64) {
     let mut bad = Bad::new();
-    let ctx = format!("{} abandoned after {k} bytes (next call {}{})", kind.name(), if queued { "already queued on the writer" } else { "issued afterwards" }, then.map(|t| format!(", then {t:?}")).unwrap_or_default());
+    let ctx = format!("{} call of {pad} padding bytes abandoned after {k} bytes (next call {}{})", kind.name(), if queued { "already queued on the writer" } else { "issued afterwards" }, then.map(|t| format!(", then {t:?}")).unwrap_or_default());
     let Conn { cli, mut peer, .. } = clients::connect(kind).await;
     peer.ctl().a_to_b.set_credit(Some(k));
-    let a = tokio::spawn(cli.call(1, None, 20_000));
+    let a = tokio::spawn(cli.call(1, None, pad));
     memstream::settle().await;
     let accepted_before = peer.ctl().a_to_b.written_total();
     let mut flags = 0;
@@ -845,8 +862,9 @@ fn run_one(rt: &tokio::runtime::Runtime, sc: &Scenario) -> (Bad, u64) {
             (bad.into_iter().map(|(k, w)| (k, format!("{w} [AsyncClient API: {api:?} = forward_message for all / even-tagged calls]"))).collect(), flags)
         }
         Scenario::ClientWriters { kind, pads, stall } => rt.block_on(client_writers(*kind, pads, *stall)),
-        Scenario::ClientAbandon { kind, k, queued } => rt.block_on(client_abandon(*kind, *k, *queued, None)),
-        Scenario::ClientAbandonThen { kind, k, then } => rt.block_on(client_abandon(*kind, *k, false, Some(*then))),
+        Scenario::ClientAbandon { kind, k, queued } => rt.block_on(client_abandon(*kind, *k, *queued, None, 20_000)),
+        Scenario::ClientAbandonThen { kind, k, then } => rt.block_on(client_abandon(*kind, *k, false, Some(*then), 20_000)),
+        Scenario::ClientAbandonBig { kind, k, pad, queued } => rt.block_on(client_abandon(*kind, *k, *queued, None, *pad)),
         Scenario::ManyWriters { kind, n, stall } => rt.block_on(many_writers(*kind, *n, *stall)),
         Scenario::AsyncServerWriteTimeout { k, pipelined } => rt.block_on(async_server_write_timeout(*k, *pipelined)),
         Scenario::AsyncServerStall { k, n, chunk } => rt.block_on(async_server_stall(*k, *n, *chunk)),
